@@ -23,3 +23,48 @@ pub mod str_facts {
 /// R9: `Peekable<T>` over the preprocessor's source-block iterator (generic iterator: opaque)
 #[verifier::external_body] #[verifier::accept_recursive_types(T)] pub struct OpaquePeekable<T> { _p: core::marker::PhantomData<T> }
 
+
+// ---- byte offsets that are character boundaries (str slicing) --------------------------------------
+/// `b` is the byte offset of a character boundary of `s`: the UTF-8 length of one of its prefixes
+pub open spec fn is_boundary(s: Seq<char>, b: int) -> bool { exists|k: int| 0 <= k <= s.len() && #[trigger] utf8_len(s.take(k)) == b }
+/// the character index of boundary `b`
+pub open spec fn boundary_index(s: Seq<char>, b: int) -> int { choose|k: int| 0 <= k <= s.len() && #[trigger] utf8_len(s.take(k)) == b }
+/// R12 `&s[a..b]`: std panics unless a <= b, both inside s and on character boundaries -- that IS the
+/// precondition. Result: the characters between the two boundaries. (ASSUMED contract of str indexing.)
+#[verifier::external_body]
+pub fn shim_str_slice<'a>(s: &'a str, a: usize, b: usize) -> (r: &'a str)
+    requires is_boundary(s@, a as int), is_boundary(s@, b as int), a <= b,
+    ensures r@ == s@.subrange(boundary_index(s@, a as int), boundary_index(s@, b as int)),
+{ &s[a..b] }
+/// R12 `s.len()` of a str: its UTF-8 byte length (std)
+#[verifier::external_body]
+pub fn shim_str_len(s: &str) -> (r: usize) ensures r == utf8_len(s@) { s.len() }
+/// byte offsets grow strictly with the character index
+pub proof fn lemma_utf8_len_strict(s: Seq<char>, i: int, j: int)
+    requires 0 <= i < j <= s.len(),
+    ensures utf8_len(s.take(i)) < utf8_len(s.take(j)),
+    decreases j - i,
+{
+    str_facts::axiom_len_utf8_range(s[j - 1]);
+    assert(s.take(j).drop_last() =~= s.take(j - 1));
+    assert(s.take(j).last() == s[j - 1]);
+    if i < j - 1 { lemma_utf8_len_strict(s, i, j - 1); }
+}
+/// ... so the boundary index of the byte offset of prefix k is k, and boundaries are ordered like their offsets
+pub proof fn lemma_boundary_index(s: Seq<char>, k: int)
+    requires 0 <= k <= s.len(),
+    ensures is_boundary(s, utf8_len(s.take(k)) as int), boundary_index(s, utf8_len(s.take(k)) as int) == k,
+{
+    let b = utf8_len(s.take(k)) as int;
+    let k2 = boundary_index(s, b);
+    if k2 < k { lemma_utf8_len_strict(s, k2, k); }
+    if k < k2 { lemma_utf8_len_strict(s, k, k2); }
+}
+pub proof fn lemma_boundary_order(s: Seq<char>, a: int, b: int)
+    requires is_boundary(s, a), is_boundary(s, b), a <= b,
+    ensures 0 <= boundary_index(s, a) <= boundary_index(s, b) <= s.len(),
+{
+    let ka = boundary_index(s, a);
+    let kb = boundary_index(s, b);
+    if kb < ka { lemma_utf8_len_strict(s, kb, ka); }
+}
